@@ -98,8 +98,15 @@ T_AppEos == IsEvent("app_eos") /\ done' = [done EXCEPT ![Rec[l].ep] = @ \cup {Re
 \* the application gave up the receiving side: the unread part counts as consumed from now on
 T_AppStop == IsEvent("app_stop") /\ done' = [done EXCEPT ![Rec[l].ep] = @ \cup {Rec[l].id}]
              /\ UNCHANGED <<cfg, advSD, advD, advStreams, recvEnd, finalSz, opened, consumed, mustClose>>
+\* the peer's own CONNECTION_CLOSE came in the packet processed last at e: frames behind it in that packet (where the harness
+\* appends its violating frame) need not be looked at any more
+PeerClosedInLastPacket(e, i) ==
+  LET J == {j \in (IF i > 400 THEN i - 400 ELSE 1)..(i - 1) : Rec[j].ev = "rxf" /\ Rec[j].ep = e} IN
+  J # {} /\ LET last == CHOOSE j \in J : \A k \in J : k <= j IN
+             \E j \in J : Rec[j].pn = Rec[last].pn /\ Rec[j].sp = Rec[last].sp /\ Rec[j].ty = "conn_close"
 T_Closed == IsEvent("conn_closed") /\ LET r == Rec[l] IN
-  /\ mustClose[r.ep] # {} => (r.error.kind = "transport" /\ r.error.local /\ r.error.code \in mustClose[r.ep])
+  /\ mustClose[r.ep] # {} => \/ (r.error.kind = "transport" /\ r.error.local /\ r.error.code \in mustClose[r.ep])
+                              \/ (~r.error.local /\ PeerClosedInLastPacket(r.ep, l))
   /\ mustClose' = [mustClose EXCEPT ![r.ep] = {}]
   /\ UNCHANGED <<cfg, advSD, advD, advStreams, recvEnd, finalSz, done, opened, consumed>>
 T_End == IsEvent("sim_end") /\ (\A e \in Ep : mustClose[e] = {}) /\ UNCHANGED rrvars
